@@ -945,21 +945,45 @@ package decimal
 //@ extern fmt.Errorf (format, a)
 //@   ensures[nonnil] result != nil
 
+// be8(b, p): the big-endian 64-bit value of the bytes b[p..p+8); wordbytes(b, p, w): those
+// eight bytes are the big-endian representation of the word w.
+//@ define be8(b, p) = ((((((b[p]*256 + b[p+1])*256 + b[p+2])*256 + b[p+3])*256 + b[p+4])*256 + b[p+5])*256 + b[p+6])*256 + b[p+7]
+//@ define wordbytes(b, p, w) = b[p+7] == w % 256 && b[p+6] == (w/256) % 256 && b[p+5] == (w/65536) % 256 && b[p+4] == (w/16777216) % 256 && b[p+3] == (w/4294967296) % 256 && b[p+2] == (w/1099511627776) % 256 && b[p+1] == (w/281474976710656) % 256 && b[p] == (w/72057594037927936) % 256
+
+//@ lemma be8_word(w)
+//@   requires 0 <= w && w < 18446744073709551616
+//@   ensures (((((((w/72057594037927936) % 256*256 + (w/281474976710656) % 256)*256 + (w/1099511627776) % 256)*256 + (w/4294967296) % 256)*256 + (w/16777216) % 256)*256 + (w/65536) % 256)*256 + (w/256) % 256)*256 + w % 256 == w
+
 //@ func bigEndianWord(buf []byte) Word
 //@   requires[len] len(buf) >= 8
 //@   ensures[range] 0 <= result
-//@   status assumed wrapper of binary.BigEndian.Uint64 (Uint32 on 32-bit words)
+//@   ensures[value,C17] result == be8(buf, 0)
 
 //@ func (z dec) setBytes(buf []byte) dec
 //@   requires[small] len(buf) <= 1000000000
+//@   requires[apart] cap(z) == 0 || z.arr != buf.arr
 //@   modifies memcap(z)
 //@   ensures[where] result_in(result, z)
 //@   ensures[norm,C17] natnorm(result)
 //@   ensures[len,C17] 8*len(result) <= len(buf) + 7
+//@   ensures[words,C17] forall k in 0..len(result) :: 8*k + 8 <= len(buf) ==> result[k] == be8(buf, len(buf) - 8*k - 8)
+//@   ensures[zeros,C17] forall k in len(result)..len(buf)/8 :: result[k] == 0 && be8(buf, len(buf) - 8*k - 8) == 0
+//@   ensures[source,C09] forall k in 0..len(buf) :: buf[k] == old(buf[k])
 //@   loop 1 invariant[range] 0 <= k && 0 <= i && i + 8*k == len(buf) && 8*len(z) >= len(buf) && 8*len(z) <= len(buf) + 7
+//@   loop 1 invariant[words] forall t in 0..k :: z[t] == be8(buf, len(buf) - 8*t - 8)
+//@   loop 1 invariant[source] forall t in 0..len(buf) :: buf[t] == old(buf[t])
 //@   loop 1 modifies mem(z)
 //@   loop 2 invariant[range] 0 <= i && i < 8 && s + 8*i == 8*(len(buf) % 8) && len(z) >= 1
 //@   tags safety C04,C17
+
+// gobwf(buf): a byte string of the shape GobEncode produces for a valid Decimal (whole
+// mantissa words only); GobDecode accepts every such string.
+//@ define gobprec(b) = ((b[2]*256 + b[3])*256 + b[4])*256 + b[5]
+//@ define gobwf(b) = len(b) >= 6 && b[0] == 1 && (b[1]/32) % 8 <= 5 && (b[1]/8) % 4 <= 2 && (b[1]/2) % 4 <= 2 &&
+//@     ((b[1]/2) % 4 == finite ==> len(b) >= 18 && (len(b) - 10) % 8 == 0 && gobprec(b) != 0 &&
+//@        (len(b) - 10)/8 <= (gobprec(b) + 18)/19 && be8(b, 10) >= B/10 &&
+//@        (forall k in 0..(len(b) - 10)/8 :: be8(b, len(b) - 8*k - 8) < B) &&
+//@        ((len(b) - 10)/8 == (gobprec(b) + 18)/19 ==> be8(b, len(b) - 8) % p10(19*((len(b) - 10)/8) - gobprec(b)) == 0))
 
 // GobDecode is total on arbitrary bytes: it returns an error and leaves z untouched, or
 // leaves a canonical Decimal; a receiver with non-zero precision keeps precision and mode.
@@ -974,12 +998,21 @@ package decimal
 //@        z.mode == (old(buf[1])/32) % 8 && z.acc == (old(buf[1])/8) % 4 - 1 && z.form == (old(buf[1])/2) % 4 && (z.neg <==> old(buf[1]) % 2 == 1) &&
 //@        z.prec == ((old(buf[2])*256 + old(buf[3]))*256 + old(buf[4]))*256 + old(buf[5]) &&
 //@        (z.form == finite ==> (z.exp >= 0 ? z.exp : z.exp + 4294967296) == ((old(buf[6])*256 + old(buf[7]))*256 + old(buf[8]))*256 + old(buf[9]))
+//@   ensures[accepts,C17] old(gobwf(buf)) ==> result == nil
+//@   ensures[mantlen,C17] result == nil && len(buf) != 0 && old(z.prec) == 0 && z.form == finite ==> 8*len(z.mant) <= len(buf) - 3
+//@   ensures[mant,C17] result == nil && len(buf) != 0 && old(z.prec) == 0 && z.form == finite ==>
+//@        (forall k in 0..len(z.mant) :: 8*k + 18 <= len(buf) ==> z.mant[k] == old(be8(buf, len(buf) - 8*k - 8))) &&
+//@        (forall k in len(z.mant)..(len(buf) - 10)/8 :: old(be8(buf, len(buf) - 8*k - 8)) == 0)
 //@   ghost gM, gL, gE
 //@   ensures[rounded,C17,C02] result == nil && len(buf) != 0 && old(z.prec) != 0 && (old(buf[1])/2) % 4 == finite &&
 //@        old(z.prec) < ((old(buf[2])*256 + old(buf[3]))*256 + old(buf[4]))*256 + old(buf[5]) ==> rounded(z, gM, gL, gE, false)
 //@   ensures[kept,C17,C02] result == nil && len(buf) != 0 && old(z.prec) != 0 && (old(buf[1])/2) % 4 == finite &&
 //@        old(z.prec) >= ((old(buf[2])*256 + old(buf[3]))*256 + old(buf[4]))*256 + old(buf[5]) ==> z.form == finite && V(z.mant) == gM && len(z.mant) == gL && z.exp == gE
 //@   ensures[attrs2,C17] result == nil && len(buf) != 0 && old(z.prec) != 0 ==> (z.neg <==> old(buf[1]) % 2 == 1) && ((old(buf[1])/2) % 4 != finite ==> z.form == (old(buf[1])/2) % 4)
+//@   hint[after:setBytes#1] old(gobwf(buf)) ==> assert(len(result) >= (len(buf) - 10)/8 || (result[(len(buf) - 10)/8 - 1] == 0 && old(be8(buf, 10)) == 0))
+//@   hint[after:setBytes#1] old(gobwf(buf)) ==> assert(len(result) == (len(buf) - 10)/8)
+//@   hint[after:setBytes#1] old(gobwf(buf)) ==> assert(result[len(result) - 1] == old(be8(buf, 10)) && result[0] == old(be8(buf, len(buf) - 8)))
+//@   hint[after:setBytes#1] old(gobwf(buf)) ==> assert(forall k in 0..len(result) :: result[k] < B)
 //@   hint[after:set#1] bind(gM, V(result))
 //@   hint[after:set#1] bind(gL, len(result))
 //@   hint[after:set#1] bind(gE, exp)
@@ -990,11 +1023,23 @@ package decimal
 
 //@ func (x dec) bytes(buf []byte) (i int)
 //@   requires[len] len(buf) >= 8*len(x) && len(x) <= 1000000000
+//@   requires[apart] buf.arr != x.arr
 //@   modifies mem(buf)
 //@   ensures[range,C17] 0 <= i && i <= len(buf)
+//@   ensures[words,C17] forall k in 0..len(x) :: wordbytes(buf, len(buf) - 8*k - 8, x[k])
+//@   ensures[words8,C17] forall k in 0..len(x) :: be8(buf, len(buf) - 8*k - 8) == x[k]
+//@   loop 1 invariant[done8] forall k in 0..rangeindex+1 :: be8(buf, len(buf) - 8*k - 8) == x[k]
 //@   loop 1 invariant[range] 0 - 1 <= rangeindex && rangeindex < len(x) && i == len(buf) - 8*(rangeindex + 1)
+//@   loop 1 invariant[done]  forall k in 0..rangeindex+1 :: wordbytes(buf, len(buf) - 8*k - 8, x[k])
 //@   loop 1 modifies mem(buf)
+//@   loop 1 hint assert(wordbytes(buf, len(buf) - 8*rangeindex - 8, x[rangeindex]))
+//@   loop 1 hint be8_word(x[rangeindex])
+//@   loop 1 hint assert(be8(buf, len(buf) - 8*rangeindex - 8) == x[rangeindex])
 //@   loop 2 invariant[range] 0 <= j && j <= 8 && 0 <= rangeindex && rangeindex < len(x) && i == len(buf) - 8*rangeindex - j
+//@   loop 2 invariant[done]  forall k in 0..rangeindex :: wordbytes(buf, len(buf) - 8*k - 8, x[k])
+//@   loop 2 invariant[done8] forall k in 0..rangeindex :: be8(buf, len(buf) - 8*k - 8) == x[k]
+//@   loop 2 invariant[part]  (j >= 1 ==> buf[len(buf) - 8*rangeindex - 1] == (x[rangeindex]/1) % 256) && (j >= 2 ==> buf[len(buf) - 8*rangeindex - 2] == (x[rangeindex]/256) % 256) && (j >= 3 ==> buf[len(buf) - 8*rangeindex - 3] == (x[rangeindex]/65536) % 256) && (j >= 4 ==> buf[len(buf) - 8*rangeindex - 4] == (x[rangeindex]/16777216) % 256) && (j >= 5 ==> buf[len(buf) - 8*rangeindex - 5] == (x[rangeindex]/4294967296) % 256) && (j >= 6 ==> buf[len(buf) - 8*rangeindex - 6] == (x[rangeindex]/1099511627776) % 256) && (j >= 7 ==> buf[len(buf) - 8*rangeindex - 7] == (x[rangeindex]/281474976710656) % 256) && (j >= 8 ==> buf[len(buf) - 8*rangeindex - 8] == (x[rangeindex]/72057594037927936) % 256)
+//@   loop 2 invariant[rest]  d == (j == 0 ? x[rangeindex]/1 : j == 1 ? x[rangeindex]/256 : j == 2 ? x[rangeindex]/65536 : j == 3 ? x[rangeindex]/16777216 : j == 4 ? x[rangeindex]/4294967296 : j == 5 ? x[rangeindex]/1099511627776 : j == 6 ? x[rangeindex]/281474976710656 : j == 7 ? x[rangeindex]/72057594037927936 : 0)
 //@   loop 2 modifies mem(buf)
 //@   loop 3 invariant[range] 0 <= i && i <= len(buf)
 //@   tags safety C04,C17
@@ -1009,6 +1054,11 @@ package decimal
 //@   ensures[header,C17] x != nil ==> result0[0] == 1 && result0[1] == x.mode*32 + (x.acc + 1)*8 + x.form*2 + (x.neg ? 1 : 0)
 //@   ensures[prec,C17] x != nil ==> ((result0[2]*256 + result0[3])*256 + result0[4])*256 + result0[5] == x.prec
 //@   ensures[exp,C17] x != nil && x.form == finite ==> ((result0[6]*256 + result0[7])*256 + result0[8])*256 + result0[9] == (x.exp >= 0 ? x.exp : x.exp + 4294967296)
+//@   ensures[mant,C17] x != nil && x.form == finite ==> (forall k in 0..(len(result0) - 10)/8 :: wordbytes(result0, len(result0) - 8*k - 8, x.mant[len(x.mant) - (len(result0) - 10)/8 + k]))
+//@   ensures[mant8,C17] x != nil && x.form == finite ==> (forall k in 0..(len(result0) - 10)/8 :: be8(result0, len(result0) - 8*k - 8) == x.mant[len(x.mant) - (len(result0) - 10)/8 + k])
+//@   hint[after:bytes#1] assert(len(buf) == 10 + 8*n && 0 <= n && n <= len(x.mant) && (len(buf) - 10)/8 == n)
+//@   hint[after:bytes#1] assert(forall k in 0..n :: wordbytes(buf, len(buf) - 8*k - 8, x.mant[len(x.mant) - n + k]))
+//@   hint[after:bytes#1] assert(forall k in 0..n :: be8(buf, len(buf) - 8*k - 8) == x.mant[len(x.mant) - n + k])
 //@   ensures[operands,C09,C18] x != nil ==> unchanged(x)
 //@   tags safety C04,C17
 
@@ -1178,23 +1228,62 @@ package decimal
 //@   tags safety C04,C14
 
 // ---------------------------------------------------------------------------
+// Round trip (C17): hooks_verif.go composes the two methods; the contract below is the
+// property statement "GobEncode followed by GobDecode into a zero-value Decimal reproduces
+// value, sign, precision, rounding mode and accuracy exactly".  It is proved from the
+// contracts of GobEncode and GobDecode alone.
+//@ func verifGobRoundTrip(x *Decimal) (*Decimal, error)
+//@   requires[wf] x != nil && valid(x) && (x.form == finite ==> len(x.mant) <= 90000000)
+//@   ensures[ok,C17] result1 == nil
+//@   ensures[attrs,C17] result0 != nil && result0.prec == x.prec && result0.mode == x.mode && result0.acc == x.acc && result0.form == x.form && result0.neg == x.neg
+//@   ensures[value,C17] x.form == finite ==> result0.exp == x.exp && len(result0.mant) == len(x.mant) && (forall k in 0..len(x.mant) :: result0.mant[k] == x.mant[k])
+//@   ensures[operand,C09] unchanged(x)
+//@   hint[after:GobEncode#1] gob_header(x.mode, x.acc, x.form, (x.neg ? 1 : 0))
+//@   hint[after:GobEncode#1] x.form == finite ==> assert(len(result0) == 10 + 8*len(x.mant))
+//@   hint[after:GobEncode#1] x.form == finite ==> assert(forall k in 0..len(x.mant) :: be8(result0, len(result0) - 8*k - 8) == x.mant[k])
+//@   hint[after:GobEncode#1] x.form == finite ==> assert(be8(result0, 10) == x.mant[len(x.mant) - 1] && be8(result0, len(result0) - 8) == x.mant[0])
+//@   hint[after:GobEncode#1] assert(gobwf(result0))
+//@   hint[after:GobDecode#1] x.form == finite ==> assert(z.form == finite && z.exp == x.exp)
+//@   hint[after:GobDecode#1] x.form == finite ==> assert(len(z.mant) >= len(x.mant) || pre(be8(b, 10)) == 0)
+//@   hint[after:GobDecode#1] x.form == finite ==> assert(len(z.mant) == len(x.mant))
+
+// ---------------------------------------------------------------------------
 // SetInt (C09, C08, C14 in part): proved modulo the assumed contracts of the math/big
 // accessors and of setNat (radix conversion; the float64 size estimate is part of that
 // assumption: the destination is long enough, so a non-zero x gives a non-empty result).
 
 //@ extern (*math/big.Int).BitLen (x)
-//@   ensures[range] 0 <= result && result <= 4294967295 && result == uf_bitlen(x)
+//@   ensures[range] 0 <= result && result <= 4294967295 && result == uf_bitlen(x) && uf_abs(x) >= 0 && (result != 0 <==> uf_abs(x) >= 1)
 //@ extern (*math/big.Int).Sign (x)
-//@   ensures[range] 0 - 1 <= result && result <= 1
+//@   ensures[range] 0 - 1 <= result && result <= 1 && (result < 0 <==> uf_neg(x) != 0)
 //@ extern (*math/big.Int).Bits (x)
 //@   ensures[range] len(result) <= 40000000 && (uf_bitlen(x) != 0 ==> len(result) >= 1)
+//@   ensures[value] V2(result) == uf_abs(x) && (uf_bitlen(x) != 0 <==> uf_abs(x) >= 1)
 //@ extern math.Ceil (x)
 
 //@ func (z dec) setNat(x []big.Word) dec
+//@   requires[len] len(x) <= 40000000
 //@   modifies mem(z)
+//@   ghost gR
 //@   ensures[where] result.arr == z.arr && result.off == z.off && cap(result) == cap(z)
-//@   ensures[shape] len(x) >= 1 ==> 1 <= len(result) && len(result) <= len(z) && len(result) <= 2*len(x) + 1 && wordsok(result) && natnorm(result)
-//@   status assumed radix conversion through divWVW; the caller's float64 size estimate is part of the assumption
+//@   ensures[words,C08] len(result) <= len(z) && wordsok(result) && natnorm(result)
+//@   ensures[value,C14] V(result) + gR*P(len(z)) == old(V2(x))
+//@   ensures[complete,assumed,C14] gR == 0
+//@   ensures[size,assumed] len(result) <= 2*len(x) + 1
+//@   loop 1 invariant[range] 0 <= i && i <= len(b) && len(b) == len(x)
+//@   loop 1 invariant[copy]  forall k in 0..i :: b[k] == old(x[k])
+//@   loop 1 invariant[rest]  forall k in 0..len(x) :: x[k] == old(x[k])
+//@   loop 1 modifies mem(b)
+//@   loop 2 invariant[range] 0 <= i && i <= len(z) && len(b) == len(x)
+//@   loop 2 invariant[words] wordsok(z[:i])
+//@   loop 2 invariant[value] V(z[:i]) + V2(b)*P(i) == old(V2(x))
+//@   loop 2 modifies mem(z), mem(b)
+//@   loop 2 hint[entry] V2_eq(b, old(x), 0, len(b))
+//@   hint[after:divWVW#1] mul_eq(V2(b)*B + result, pre(V2(b)), P(i))
+//@   hint[after:divWVW#1] Pdef(i)
+//@   hint[after:divWVW#1] mul_eq(P(i+1), B*P(i), V2(b))
+//@   loop 2 hint Vdef(z, 0, i-1)
+//@   hint[ret] bind(gR, V2(b))
 
 //@ func (z *Decimal) SetInt(x *big.Int) *Decimal
 //@   requires[wf] z != nil && x != nil && z.mode <= 5
@@ -1203,5 +1292,17 @@ package decimal
 //@   ensures[sticky,C09] old(z.prec) != 0 ==> z.prec == old(z.prec)
 //@   ensures[prec0,C09,C14] old(z.prec) == 0 ==> z.prec >= DefaultDecimalPrec
 //@   ensures[mode,C09] z.mode == old(z.mode)
+//@   ensures[sign,C14] z.neg == (uf_neg(x) != 0)
+//@   ensures[zero,C14,C02] uf_abs(x) == 0 ==> z.form == zero && z.acc == 0
+//@   ghost gL, gs
+//@   ensures[norm,C14] uf_abs(x) != 0 ==> 1 <= gL && 0 <= gs && gs <= 18 && P(gL) <= 10*(uf_abs(x)*p10(gs)) && uf_abs(x)*p10(gs) < P(gL)
+//@   ensures[value,C14,C02] uf_abs(x) != 0 ==> roundspec(z, uf_abs(x)*p10(gs), gL, 19*gL - gs, false)
 //@   ensures[valid,C08] valid(z)
+//@   hint[after:dnorm#1] bind(gs, result)
+//@   hint[after:dnorm#1] bind(gL, len(z.mant))
+//@   hint[after:dnorm#1] V_top(z.mant, 0, len(z.mant))
+//@   hint[after:dnorm#1] V_bounds(z.mant, 0, len(z.mant))
+//@   hint[after:dnorm#1] mul_mono(B/10, z.mant[len(z.mant)-1], P(len(z.mant)-1))
+//@   hint[after:dnorm#1] Pdef(len(z.mant)-1)
+//@   hint[after:dnorm#1] assert(V(z.mant) == uf_abs(x)*p10(result))
 //@   tags safety C04,C14
